@@ -81,6 +81,18 @@ def codec_init_harnesses():
                          functions=[cfile[:-2] + "_init", cfile[:-2] + "_close", "first block decode", "psf_close"],
                          bounds="file length 0..160 symbolic (read mode), every read/seek may fail or be short, library decode may report an error; codec library = contract stub"))
     return out
+def sd2_harnesses():
+    out = []
+    for rlen in (80, 96):
+        out.append(H("sd2.parse.r%d" % rlen, "C16/sd2_parse.c", link=["common", "pcm"], stubs=["psf_log_printf", "psf_memset"],
+                     defines={"RLEN": rlen, "HDR_FIXED": 1, "DLEN": 16, "MF_CAP": 104, "MF_MAXIO": 104, "SNP_MAX": 40, "PSF_MEMSET_MAX": 64, "LIBSNDFILE_VERIF_BUFFER_LEN": 64}, unwind=8,
+                     unwindset=["psf_fread.0:105", "main.0:%d" % (rlen + 2), "main.1:%d" % (rlen + 2), "main.2:%d" % (rlen + 2), "main.3:%d" % (rlen + 2), "read_rsrc_str.0:34", "strstr.0:12", "strstr.1:34", "strlen.0:34", "snprintf.0:41", "snprintf.1:41",
+                                "sd2_parse_rsrc_fork.0:%d" % (rlen // 8 + 3), "parse_str_rsrc.0:%d" % (rlen // 12 + 3), "strtol.0:34", "strncmp.0:12"],
+                     checks="leak", fsa=130, include_env=("log_stub", "memfile", "memset_model", "snprintf_model", "strstr_model"), timeout=600,
+                     tiers=("quick", "thorough") if rlen == 80 else ("thorough",),
+                     functions=["sd2_open", "sd2_parse_rsrc_fork", "parse_str_rsrc", "read_rsrc_*", "psf_use_rsrc (E-memfile)", "psf_close"],
+                     bounds="resource fork of %d bytes: consistent 16-byte fork header on the grid, every byte of the resource map / items / strings symbolic; header cache 32 bytes (the fork gets its own heap block)" % rlen))
+    return out
 def setter_harnesses():
     out = []
     names = {1: "cue", 2: "inst", 3: "chanmap", 4: "str"}
@@ -94,6 +106,7 @@ def setter_harnesses():
     return out
 HARNESSES += setter_harnesses()
 HARNESSES += codec_init_harnesses()
+HARNESSES += sd2_harnesses()
 HARNESSES += alac_harnesses()
 HARNESSES += seq_harnesses()
 HARNESSES += [h for h in _load("C14").HARNESSES if h.name == "fileio.ownership"]
